@@ -47,6 +47,34 @@ func H_C02_snapshot() {
 	vxrt.Assert(testEvents.items[erred] == erredBefore+1, "C02:erred-counter")
 }
 
+// H_C02_struct: line-structured stored and received texts (see structText).
+func H_C02_struct() {
+	vxrt.CI(false)
+	vxrt.YAMLAssume(true)
+	vxrt.EnvPresent("NO_COLOR")
+	dir := vxrt.Dir()
+	c := WithConfig(Dir(dir), Filename("f"))
+	k := vxrt.Param("lines", 2)
+	f0 := structText("stored", k)
+	f1 := structText("received", k)
+	vxrt.Assume(differs(f0, f1))
+	if vxrt.Param("known_K1", 1) == 1 {
+		vxrt.Assume(vxrt.Not(k1EscapeAlias(f0, f1)))
+	}
+	kind := vxrt.Choice("kind", 2)
+	t1 := newT("TestA")
+	doCall(c, t1, kind, f0)
+	t1.end()
+	vxrt.Assert(len(t1.errors) == 0 && len(t1.logs) == 1, "C02:record")
+	stamp := vxrt.FSStamp()
+	t2 := newT("TestA")
+	doCall(c, t2, kind, f1)
+	t2.end()
+	vxrt.Assert(len(t2.errors) == 1, "C02:one-error")
+	vxrt.Assert(len(t2.logs) == 0, "C02:no-log")
+	vxrt.Assert(vxrt.FSStamp() == stamp, "C02:no-write")
+}
+
 // k1EscapeAlias is the class of known finding K1: the two texts become equal
 // when every whole line "/-/-/-/" is read as "---" (the escape token is itself
 // a legal line, and comparison happens after unescaping both sides).
